@@ -122,6 +122,35 @@ Proof.
       eapply mz_anc_step; eauto. constructor.
 Qed.
 
+(* which claimed originZone is honoured: none from a sender outside the receiver's zone (the message is attributed to
+   the sender's own zone, whatever it claims); a peer of the receiver's own zone is trusted to name the zone it relays for *)
+Lemma mz_origin_claim_sound l s :
+  (forall ez, mz_ep s = Some (Some ez) -> ez <> l ->
+     mz_from_zone l s = Some ez /\ mz_eff_zone l s = Some ez) /\
+  (forall z, mz_from_zone l s = Some z ->
+     exists ez, mz_cauth s = true /\ mz_cident s = Some ez /\
+       ((ez = Some z /\ z <> l) \/ (ez = Some l /\ mz_cclaim s = Some z))) /\
+  (mz_ep s = None -> mz_from_zone l s = None /\ mz_eff_zone l s = None).
+Proof.
+  repeat split.
+  - unfold mz_from_zone. rewrite H, mz_onat_eqb_some. destruct (Nat.eqb ez l) eqn:Q; auto.
+    apply Nat.eqb_eq in Q; contradiction.
+  - unfold mz_eff_zone. rewrite H, mz_onat_eqb_some. destruct (Nat.eqb ez l) eqn:Q; auto.
+    apply Nat.eqb_eq in Q; contradiction.
+  - intros z F. unfold mz_from_zone in F. destruct (mz_ep s) as [ez|] eqn:E; [|discriminate].
+    apply mz_ep_some in E as [Ha Hi]. exists ez; repeat split; auto.
+    destruct ez as [e|]; cbn in F.
+    + destruct (Nat.eqb e l) eqn:Q.
+      * apply Nat.eqb_eq in Q; subst. right; auto.
+      * inversion F; subst. left; split; auto. intros ->. rewrite Nat.eqb_refl in Q; discriminate.
+    + discriminate.
+  - unfold mz_from_zone. rewrite H. reflexivity.
+  - unfold mz_eff_zone. rewrite H. reflexivity.
+Qed.
+
+Lemma mz_origin_rule_now : mz_origin_rule_ok.
+Proof. vm_compute. first [reflexivity | exact I]. Qed.
+
 (* ---------------------------------------------------------------- soundness of an adequate row *)
 Ltac mz_split H :=
   repeat match type of H with
